@@ -994,7 +994,7 @@ impl Property for P14 {
     fn random_runs(tier: Tier) -> u64 {
         match tier {
             Tier::Quick => 1_500_000,
-            Tier::Thorough => 150_000_000,
+            Tier::Thorough => 40_000_000,
         }
     }
 
